@@ -447,6 +447,10 @@ def _err(e):
     return "%s: %s" % (type(e).__name__, str(e)[:160])
 
 
+class ImplRaised(Exception):
+    """The library raised in a call whose success C07 presupposes (opening a source, chunking)."""
+
+
 class Replayer:
     """Steps one behaviour (list of calls) through real objects and records the trace."""
 
@@ -486,7 +490,10 @@ class Replayer:
 
     # -- actions
     def open(self, g):
-        self.grids[g] = build_grid(self.entries[g], self.routes[g], os.path.join(self.work, "t%d_src_%s.nc" % (self.t, g)))
+        try:
+            self.grids[g] = build_grid(self.entries[g], self.routes[g], os.path.join(self.work, "t%d_src_%s.nc" % (self.t, g)))
+        except Exception as e:  # noqa
+            raise ImplRaised("Open(%s) via %s: %s" % (g, self.routes[g], _err(e)))
         L = {"ev": "Open", "g": g}
         L.update(self._common(g))
         self._emit(L)
@@ -504,7 +511,10 @@ class Replayer:
         self._emit(L)
 
     def chunk(self, g):
-        self.grids[g].chunk()
+        try:
+            self.grids[g].chunk()
+        except Exception as e:  # noqa
+            raise ImplRaised("Chunk(%s): %s" % (g, _err(e)))
         L = {"ev": "Chunk", "g": g}
         L.update(self._common(g))
         self._emit(L)
@@ -650,7 +660,10 @@ def replay_behaviour(beh):
         beh = dict(beh)
         beh["_pos"] = {}
         for g in beh["entries"]:
-            pos, faces = source_of(beh["entries"][g], beh["routes"][g], os.path.join(beh["work"], "t%d_probe_%s.nc" % (beh["t"], g)))
+            try:
+                pos, faces = source_of(beh["entries"][g], beh["routes"][g], os.path.join(beh["work"], "t%d_probe_%s.nc" % (beh["t"], g)))
+            except Exception as e:  # noqa
+                raise ImplRaised("Open(%s) via %s: %s" % (g, beh["routes"][g], _err(e)))
             if "faces" in beh["entries"][g]:
                 want = [list(f) for f in beh["entries"][g]["faces"]]
                 if [sorted(f) for f in faces] != [sorted(f) for f in want]:
@@ -666,6 +679,9 @@ def replay_behaviour(beh):
         out["lines"] = r.lines
         out["errors"] = r.errors
         out["aliases"] = sum(1 for x in r.exports if x["alias"])
+    except ImplRaised as e:
+        out["skipped"] = "implementation raised: " + str(e)
+        out["impl_raised"] = str(e)
     except Exception as e:  # noqa
         import traceback
 
